@@ -8,6 +8,7 @@ mod c06;
 mod c07;
 mod c08;
 mod c09;
+mod c10;
 mod c14;
 mod c19;
 mod c20;
@@ -34,6 +35,7 @@ pub fn replay_dispatch(prop: &str, layer: &str, case: &serde_json::Value) -> Res
         "C07" => c07::replay(layer, case),
         "C08" => c08::replay(layer, case),
         "C09" => c09::replay(layer, case),
+        "C10" => c10::replay(layer, case),
         "C14" => c14::replay(layer, case),
         "C19" => c19::replay(layer, case),
         "C20" => c20::replay(layer, case),
@@ -135,6 +137,7 @@ fn main() {
         "C07" => c07::run(&mut run, &ctx),
         "C08" => c08::run(&mut run, &ctx),
         "C09" => c09::run(&mut run, &ctx),
+        "C10" => c10::run(&mut run, &ctx),
         "C14" => c14::run(&mut run, &ctx),
         "C19" => c19::run(&mut run, &ctx),
         "C20" => c20::run(&mut run, &ctx),
